@@ -57,7 +57,7 @@ NAMES = ["a", "b"]
 # (rank of ECU-SHARED-DATA among the parent types, diag variables of shared data below a PROTOCOL layer): the
 # readings a database may follow -- as a whole.  Remove entries to demand one reading.
 READINGS = [("highest", "transparent"), ("highest", "opaque"), ("lowest", "transparent"), ("lowest", "opaque")]
-BATCH = 12
+BATCH = 16
 DDDS_GETTER = {"sfield": "static_fields", "eopfield": "end_of_pdu_fields", "dlfield": "dynamic_length_fields",
                "emfield": "dynamic_endmarker_fields", "mux": "muxs", "dtcdop": "dtc_dops", "envdata": "env_datas",
                "envdesc": "env_data_descs"}
@@ -1110,7 +1110,7 @@ def plan(quick: bool) -> Tuple[Any, ...]:
     # xspaces: (n, k, kinds, required kind, max exclusions, shards) -- only the placements containing the required kind
     # rspaces: (n, k, kinds, 19 categories?, compare with a fresh load?, required kind)
     if quick:
-        spaces = [(1, 2, (0, 1, 2, 3), True, True, 1), (2, 2, (0, 1, 2, 3), True, True, 1), (3, 1, (0, 1, 2, 3), True, True, 2),
+        spaces = [(1, 2, (0, 1, 2, 3), True, True, 1), (2, 2, (0, 1, 2, 3), True, True, 1), (3, 1, (0, 1, 2, 3), True, False, 2),
                   (3, 2, (0, 1), False, False, 4), (4, 1, (0, 1), False, False, 2)]
         xspaces = [(1, 2, (0, 1, 4), 4, None, 1), (2, 2, (0, 1, 4), 4, None, 1), (3, 1, (0, 1, 4), 4, None, 1)]
         pspaces = [(2, 1, (0, 1)), (3, 1, (0, 1))]
@@ -1120,13 +1120,12 @@ def plan(quick: bool) -> Tuple[Any, ...]:
         qspaces = [(3, 1, (0, 1, 2, 3, 4)), (3, 2, (0, 1)), (4, 1, (0, 1))]
     else:
         spaces = [(1, 2, (0, 1, 2, 3), True, True, 1), (2, 2, (0, 1, 2, 3), True, True, 1), (3, 1, (0, 1, 2, 3), True, True, 2),
-                  (3, 2, (0, 1, 2), True, False, 16), (4, 1, (0, 1, 2, 3), False, False, 4), (4, 2, (0, 1), False, False, 0),
-                  (5, 1, (0, 1), False, False, 4)]
+                  (3, 2, (0, 1, 2), False, False, 16), (4, 1, (0, 1, 2, 3), False, False, 4), (5, 1, (0, 1), False, False, 4)]
         xspaces = [(1, 2, (0, 1, 4), 4, None, 1), (2, 2, (0, 1, 2, 4), 4, None, 1), (3, 1, (0, 1, 2, 4), 4, None, 1),
                    (4, 1, (0, 1, 4), 4, 1, 2)]
         pspaces = [(2, 2, (0, 1, 2)), (3, 1, (0, 1, 2, 3))]
         rspaces = [(1, 2, (0, 1, 2, 3), True, True, None), (2, 2, (0, 1, 2, 3), True, True, None), (3, 1, (0, 1, 2, 3), True, True, None),
-                   (3, 2, (0, 1), False, True, None), (2, 2, (0, 1, 4), False, True, 4)]
+                   (3, 2, (0, 1), False, False, None), (2, 2, (0, 1, 4), False, True, 4)]
         sspaces = [(2, 2, (0, 1, 3, 4)), (3, 1, (0, 1, 3, 4))]
         qspaces = [(3, 1, (0, 1, 2, 3, 4)), (3, 2, (0, 1)), (4, 1, (0, 1, 2))]
     desc = []
